@@ -240,10 +240,16 @@ def d3(cx: Cx, ob: Ob) -> None:
         if ctx.loops:
             ob.violate(fn.qualname, where(fn, line), "TransitiveError is raised from inside the record loop, after records may have been modified", detail="late")
         gs = [g for g in ctx.guards if g.kind == "guard"]
-        if len(gs) != 1 or gs[0].b is not True:
+        disj = len(gs) == 1 and gs[0].b is False and op(gs[0].a) == "call" and callee_name(gs[0].a) == "isdisjoint"
+        if len(gs) != 1 or (gs[0].b is not True and not disj):
             ob.violate(fn.qualname, where(fn, line), "TransitiveError is not guarded by exactly the key/value intersection test", witness=describe_path(ctx), detail="guard")
             continue
-        g = gs[0].a
+        # a private copy of the argument (remapping = dict(remapping)) has the same keys and values
+        from ..terms import substitute
+
+        g = substitute(gs[0].a, {("call", ("builtin", "dict"), (m,), ()): m, ("call", ("builtin", "dict"), (("call", ("attr", m, "items"), (), ()),), ()): m})
+        if disj:
+            g = ("call", ("attr", g[1][1], "intersection"), g[2], g[3])
         ok = False
         keys = [("call", ("builtin", "set"), (m,), ()), m, ("call", ("attr", m, "keys"), (), ())]
         vals = [("call", ("attr", m, "values"), (), ()), ("call", ("builtin", "set"), (("call", ("attr", m, "values"), (), ()),), ())]
